@@ -51,6 +51,64 @@ pub struct Hooks<'a> {
     /// `compile_failure_is_violation`
     pub classify_compile: &'a dyn Fn(&Item, &CaseResult) -> Option<String>,
     pub compile_failure_is_violation: bool,
+    /// tape -> item (same generator configuration): enables shrinking of a violating case
+    pub rebuild: Option<&'a dyn Fn(&[u8]) -> Option<Item>>,
+}
+
+/// Signature of a vector failure that shrinking must preserve.
+fn failure_signature(text: &str) -> String {
+    dedup_text(text)
+}
+
+/// Shrink the tape of a violating item with one-case builds (bounded budget). Returns the smallest
+/// item found together with the index of a vector that still fails the same way (None for a
+/// compile failure).
+fn shrink_item(tag: &str, item: &Item, hooks: &Hooks, want_sig: Option<&str>, want_code: Option<&str>, budget: usize) -> Option<(Item, Option<usize>)> {
+    let rebuild = hooks.rebuild?;
+    let still_fails = |cand: &Item| -> Option<Option<usize>> {
+        let e1 = E1::new(&format!("{}-shrink", tag), 1);
+        let res = e1.run(&[cand.base.case.clone()]).ok()?;
+        let r = &res[0];
+        if let Some(code) = want_code {
+            if r.gen_error.is_some() && code == "generation" {
+                return Some(None);
+            }
+            if r.compile_errors.iter().any(|(c, _)| c == code) {
+                return Some(None);
+            }
+            return None;
+        }
+        if !r.compiled() {
+            return None;
+        }
+        let sig = want_sig?;
+        for (vi, (e, o)) in cand.expects.iter().zip(&r.results).enumerate() {
+            if let Some(Some(d)) = cand.depends.get(vi) {
+                if !matches!(r.results.get(*d), Some(VecResult::Ok(_))) {
+                    continue;
+                }
+            }
+            if let Some(text) = evaluate(e, o) {
+                if failure_signature(&text) == sig {
+                    return Some(Some(vi));
+                }
+            }
+        }
+        None
+    };
+    let mut best: Option<(Item, Option<usize>)> = None;
+    let small = crate::tape::shrink_tape(&item.tape, budget, |t| match rebuild(t) {
+        Some(cand) => match still_fails(&cand) {
+            Some(v) => {
+                best = Some((cand, v));
+                true
+            }
+            None => false,
+        },
+        None => false,
+    });
+    let _ = small;
+    best
 }
 
 /// Run a batch through E1 and account for everything in the report.
@@ -83,8 +141,15 @@ pub fn run_items(report: &mut Report, tag: &str, items: &[Item], hooks: &Hooks) 
             if hooks.compile_failure_is_violation {
                 let key = (hooks.classify_compile)(item, res);
                 let dedup = format!("compile:{}", res.compile_errors.first().map(|(c, m)| format!("{}{}", c, dedup_text(m))).unwrap_or_else(|| what.clone()));
-                let (c, e) = slim_case(&item.base.case, &item.expects, &[]);
-                let feats = item.base.features.list();
+                let is_known = key.as_deref().map(|k| report.findings.is_open(&report.property, k)).unwrap_or(false);
+                let mut shrunk: Option<Item> = None;
+                if !is_known && !report.violation_keys.contains(&dedup) && report.violation_keys.len() < 2 {
+                    let code = if res.gen_error.is_some() { "generation".to_string() } else { res.compile_errors.first().map(|(c, _)| c.clone()).unwrap_or_default() };
+                    shrunk = shrink_item(tag, item, hooks, None, Some(&code), 24).map(|(i, _)| i);
+                }
+                let src = shrunk.as_ref().unwrap_or(item);
+                let (c, e) = slim_case(&src.base.case, &src.expects, &[]);
+                let feats = src.base.features.list();
                 report.failure(key.as_deref(), &dedup, &format!("supported input does not build: {}", what), || {
                     replay_json(&c, &e, &feats, &item.tape, json!({"compile": what}))
                 });
@@ -123,10 +188,21 @@ pub fn run_items(report: &mut Report, tag: &str, items: &[Item], hooks: &Hooks) 
                 let key = (hooks.classify)(&fail);
                 let label = item.labels.get(vi).cloned().unwrap_or_default();
                 let dedup = format!("{}:{}", key.clone().unwrap_or_default(), dedup_text(&text));
-                let (c, e) = slim_case(&item.base.case, &item.expects, &[vi]);
-                let feats = item.base.features.list();
-                let summary = format!("{} [{}]: {}", item.base.case.vectors[vi].kind, label, text);
-                report.failure(key.as_deref(), &dedup, &summary, || replay_json(&c, &e, &feats, &item.tape, json!({"vector": 0, "got": text})));
+                let is_known = key.as_deref().map(|k| report.findings.is_open(&report.property, k)).unwrap_or(false);
+                let mut shrunk: Option<(Item, usize)> = None;
+                if !is_known && !report.violation_keys.contains(&dedup) && report.violation_keys.len() < 2 {
+                    if let Some((si, Some(svi))) = shrink_item(tag, item, hooks, Some(&failure_signature(&text)), None, 24) {
+                        shrunk = Some((si, svi));
+                    }
+                }
+                let (src, svi) = match &shrunk {
+                    Some((i, v)) => (i, *v),
+                    None => (item, vi),
+                };
+                let (c, e) = slim_case(&src.base.case, &src.expects, &[svi]);
+                let feats = src.base.features.list();
+                let summary = format!("{} [{}]: {}{}", item.base.case.vectors[vi].kind, label, text, if shrunk.is_some() { " (replay shrunk)" } else { "" });
+                report.failure(key.as_deref(), &dedup, &summary, || replay_json(&c, &e, &feats, &src.tape, json!({"vector": 0, "got": text})));
             }
         }
     }
